@@ -201,9 +201,6 @@ def sym_det(m):
     raise NotEncodable('det n=%d' % n)
 
 
-def sym_ones(shape=None, dtype=None, **kw):
-    return _np.ones(shape, **kw)
-
 
 def sym_array(obj, dtype=None, **kw):
     if is_sym(obj) or isinstance(obj, SymReal):
@@ -374,7 +371,76 @@ def _asbool(x):
     return SymBool(T.boolc(bool(x)))
 
 
+def _obj_filled(val):
+    def mkarr(shape=None, dtype=None, **kw):
+        if shape is None:
+            shape = kw.pop('shape')
+        a = _np.empty(shape, dtype=object)
+        if a.ndim == 0:
+            a[()] = val
+        else:
+            a.fill(val)
+        return a
+    return mkarr
+
+
+sym_zeros = _obj_filled(0.0)
+sym_ones = _obj_filled(1.0)
+sym_empty = _obj_filled(0.0)
+
+
+def _like(val):
+    def f(a, dtype=None, **kw):
+        out = _np.empty(_np.shape(a), dtype=object)
+        if out.ndim == 0:
+            out[()] = val
+        else:
+            out.fill(val)
+        return out
+    return f
+
+
+def sym_full(shape, fill_value, dtype=None, **kw):
+    a = _np.empty(shape, dtype=object)
+    a.fill(fill_value)
+    return a
+
+
+def sym_inv(m):
+    if not is_sym(m):
+        m2 = _np.asarray(m)
+        if m2.dtype == object:
+            m2 = m2.astype(float)
+        return _np.linalg.inv(m2)
+    m = _np.asarray(m, dtype=object)
+    n = m.shape[0]
+    det = sym_det(m)
+    out = _np.empty((n, n), dtype=object)
+    if n == 1:
+        out[0, 0] = 1 / m[0, 0]
+        return out
+    if n == 2:
+        out[0, 0] = m[1, 1] / det
+        out[0, 1] = -m[0, 1] / det
+        out[1, 0] = -m[1, 0] / det
+        out[1, 1] = m[0, 0] / det
+        return out
+    if n == 3:
+        for i in range(3):
+            for j in range(3):
+                # cofactor of (j, i)
+                rows = [r for r in range(3) if r != j]
+                cols = [c for c in range(3) if c != i]
+                minor = m[rows[0], cols[0]] * m[rows[1], cols[1]] - m[rows[0], cols[1]] * m[rows[1], cols[0]]
+                sign = -1 if (i + j) % 2 else 1
+                out[i, j] = sign * minor / det
+        return out
+    raise NotEncodable('inv n=%d' % n)
+
+
 OVERRIDES = {
+    'zeros': sym_zeros, 'ones': sym_ones, 'empty': sym_empty, 'full': sym_full,
+    'zeros_like': _like(0.0), 'ones_like': _like(1.0), 'empty_like': _like(0.0),
     'sqrt': sym_sqrt, 'exp': sym_exp, 'log': sym_log, 'log10': sym_log10,
     'sin': sym_sin, 'cos': sym_cos, 'tan': sym_tan,
     'arctan': sym_arctan, 'arccos': sym_arccos, 'arcsin': sym_arcsin, 'arctan2': sym_arctan2,
@@ -394,6 +460,7 @@ OVERRIDES = {
 class _LinalgProxy(object):
     norm = staticmethod(sym_norm)
     det = staticmethod(sym_det)
+    inv = staticmethod(sym_inv)
 
     def __getattr__(self, name):
         return getattr(_np.linalg, name)
